@@ -264,3 +264,30 @@ def rule_inert_without_scope(ctx, facts, rule):
                   "LocalSpanStack::%s is inert unless a scope is open (span_lines.last_mut() = Some)" % name,
                   "effects %s" % [fn.term(b)["callee"].rsplit("::", 1)[1] for b in eff], "effectful calls %s unguarded" % eff, extra="inert")
     ctx.floor(rule, STACK.rstrip(":"), n, 6, "scope-stack operations")
+
+
+def rule_scope_always_opened(ctx, facts, rule):
+    """Setting a recording span as local parent always opens a scope of its own -- also for an unsampled span, whose
+    (non-recording) scope shields the enclosing one from local properties / events / spans."""
+    prov = Prov(facts)
+    fn = ctx.need_fn(facts, "fastrace::span::SpanInner::capture_local_spans", rule)
+    if fn is not None:
+        news = sites_star(facts, fn, lambda g, t: t["callee"].endswith("LocalCollector::new"))
+        ok, wit = fn.must_pass([0], news)
+        tok = False
+        for b in news:
+            src = prov.of_operand(fn, fn.term(b)["args"][0])
+            tok = tok or any(v[0] == "call" and v[1].endswith("SpanInner::issue_collect_token") for o in src for v in o.via)
+        ctx.check(ok and bool(news) and tok, rule, fn.path, fn.span,
+                  "capture_local_spans opens a scope (LocalCollector::new with the span's issued token) on every path", "",
+                  "a path returns at bb%s without opening a scope: local operations inside the guard would act on the enclosing "
+                  "scope" % wit, extra="opened")
+    at = ctx.need_fn(facts, "fastrace::span::Span::attach_into_stack", rule)
+    if at is not None:
+        cap = sites_star(facts, at, lambda g, t: t["callee"].endswith("SpanInner::capture_local_spans"))
+        ctx.check(bool(cap), rule, at.path, at.span, "set_local_parent on a recording span goes through capture_local_spans", "", "no call", extra="attach")
+    new = ctx.need_fn(facts, "fastrace::local::local_collector::LocalCollector::new", rule)
+    if new is not None:
+        reg = sites_star(facts, new, lambda g, t: t["callee"].endswith("LocalSpanStack::register_span_line"))
+        ok, wit = new.must_pass([0], reg)
+        ctx.check(ok and bool(reg), rule, new.path, new.span, "LocalCollector::new registers a span line on every path", "", "path avoiding register_span_line (bb%s)" % wit, extra="register")
